@@ -110,22 +110,24 @@ DeliverSim ==
      THEN DeliverHeader(CHOOSE b \in hpend : \A x \in hpend : b <= x)
      ELSE
      \E r \in {RandomElement(1..10)} :
-     \E deepest \in {{x \in fresh : \A y \in fresh : Height(y) <= Height(x)}} :
-     \E b \in {IF SimProfile = "orphans" /\ r <= 7 /\ deepest # {} THEN RandomElement(deepest)       \* children before parents: orphans pile up
+     \E parked \in {{n.orph[i] : i \in 1..Len(n.orph)}} :
+     \E notyet \in {fresh \ parked} :
+     \E deepest \in {{x \in notyet : \A y \in notyet : Height(y) <= Height(x)}} :
+     \E b \in {IF SimProfile = "orphans" /\ r <= 8 /\ deepest # {} THEN RandomElement(deepest)       \* children before parents: orphans pile up
                 ELSE IF r <= 4 /\ ready2 # {} THEN RandomElement(ready2)
                 ELSE IF r <= 6 /\ ready # {} THEN RandomElement(ready)
                 ELSE IF r <= 8 /\ fresh # {} THEN RandomElement(fresh)
                 ELSE RandomElement({x \in Ids \ {0} : SimProfile # "compact" \/ x + 30 > Trunk})} :
      \E hb \in {RandomElement(1..8)} :
-        IF hb <= 2 /\ ~HeadersFirst THEN DeliverHeader(b)
-        ELSE IF hb = 3 /\ ~HeadersFirst /\ Height(b) >= 2
+        IF hb <= 2 /\ ~HeadersFirst /\ SimProfile # "orphans" THEN DeliverHeader(b)
+        ELSE IF hb = 3 /\ ~HeadersFirst /\ Height(b) >= 2 /\ SimProfile # "orphans"
              THEN (\E k \in {RandomElement(2..(IF Height(b) >= 3 THEN 3 ELSE 2))} :
                    \E sh \in {IF RandomElement(1..2) = 1 THEN n.hhead ELSE RandomElement(n.hdrs)} :      \* the caller's sync head
                      DeliverHeadersFrom(b, k, sh))
         ELSE DeliverBlock(b)
 SimNext == \/ MintSim
            \/ (AllMinted /\ DeliverSim)
-           \/ (\E r \in {RandomElement(1..6)} : r = 1 /\ Reopen)
+           \/ (SimProfile # "orphans" /\ \E r \in {RandomElement(1..6)} : r = 1 /\ Reopen)
            \/ (TxShapes # "none" /\ \E r \in {RandomElement(1..5)} : r = 1 /\                       \* a pool-facing query about a random transaction
                   \E bt \in {BalancedTxs(9999, Height(n.head) + 1)} : bt # {} /\
                   \E live \in {{n.u.outs[i].c : i \in n.u.unspent}} :
